@@ -126,6 +126,29 @@ def make_custom_payload(rows):
     return CustomRows(rows)
 
 
+def make_lazy_payload(rows):
+    """A *lazy* stored payload: the public ChainRowIterable over two RowSequences (a leaf or marker may legally hold any
+    RowIterable).  Counts iteration starts; `parts` keeps the original operand list so that its content can be audited."""
+    from lsst.daf.relation import iteration
+
+    class LazyChainRows(iteration.ChainRowIterable):
+        def __init__(self, parts):
+            super().__init__(parts)
+            self.iter_starts = 0
+            self.rows_pulled = 0
+
+        def __iter__(self):
+            self.iter_starts += 1
+            for r in super().__iter__():
+                _tick()
+                self.rows_pulled += 1
+                yield r
+
+    rows = list(rows)
+    cut = (len(rows) + 1) // 2
+    return LazyChainRows([iteration.RowSequence(rows[:cut]), iteration.RowSequence(rows[cut:])])
+
+
 def make_counting_mapping(cols, rows):
     """A RowMapping payload keyed on the key columns, counting iteration starts; None if keys are not unique."""
     from lsst.daf.relation import iteration
@@ -259,11 +282,13 @@ class Env:
             payload = make_counting_mapping(cols, data)
         if payload is None and variant in ("custom", "mapping"):
             payload = make_custom_payload(data)
+        if variant == "lazy":
+            payload = make_lazy_payload(data)
         if payload is None:
             payload = make_counting_sequence(data) if self.counting else iteration.RowSequence(data)
         self.payloads.append(payload)
         colset = frozenset(cols)
-        if (lo, hi) == (len(data), len(data)):
+        if (lo, hi) == (len(data), len(data)) and variant != "lazy":  # make_leaf() takes the bounds from len(payload)
             return engine.make_leaf(colset, payload, name=name)
         return LeafRelation(engine, colset, payload, name=name, min_rows=lo, max_rows=hi)
 
